@@ -567,12 +567,18 @@ void prop_main(const Case& cs) {
 // ================================================================ accuracy on long streams (weak, calibrated)
 // K_2 scale function with normaliser: a cluster around rank q holds at most q(1-q) * Z / (2k) of the weight,
 // Z = 4 ln(n / 2k) + 24. The claimed bound is a fixed fraction of that figure plus a few items.
-// Calibration (6 seeds x ~1000 cases, fast build, C17_CALIB=1): largest observed err / (cluster fraction + 1/n) was 0.53 for
-// get_rank (both trees) and 0.94 for get_quantile on the tree with out/proposed/C17-1.diff applied (2.43 on the pinned tree:
-// the swapped interpolation weights put the answer at the wrong end of a centroid pair, hence the key on that check).
+// Calibration (12 seeds x ~1000 cases, fast build, C17_CALIB=1), largest observed err / (cluster fraction + 1/n):
+//   get_rank      class A 0.19, class B 0.61 (same on the tree before and after the get_quantile fix)
+//   get_quantile  class A 0.25, class B 1.16 with the interpolation weights in the right order (out/proposed/C17-1.diff);
+//                 1.02 / 3.13 on the tree with the swapped weights (answer at the wrong end of a centroid pair), hence the key.
+// The constants below are at least twice the observed maxima.
 // Orders that defeat the algorithm itself are not part of this claim: zigzag arrival (min, max, 2nd min, 2nd max, ...) of
-// log-uniform values gave a 6% rank error at the median for k = 500 on both trees; the t-digest has no worst-case guarantee.
-const double ACC_C_RANK = 1.0, ACC_C_QUANT = 1.5, ACC_ITEMS = 3.0;
+// log-uniform values over e^40 gave a 6% rank error at the median for k = 500, sorted blocks in random order 2.2 cluster sizes,
+// on both trees; the t-digest has no worst-case guarantee, so these are not findings.
+// Bound: err <= C * (cluster fraction + 1/n); class A = sorted or reversed arrival of linearly or log-uniformly spaced values
+// (interpolation inside a cluster is then nearly exact), class B = everything else that is generated here.
+struct AccC { double rank, quant; };
+inline AccC acc_constants(int order, int dist) { return (order <= 1 && dist <= 2) ? AccC{0.5, 0.6} : AccC{1.3, 2.4}; }
 double cluster_fraction(double q, double k, double n) { return q * (1 - q) * (4 * std::log(n / (2 * k)) + 24) / (2 * k); }
 
 struct Calib { double max_rank[64] = {0}, max_quant[64] = {0}; };
@@ -636,6 +642,9 @@ template <typename T> void prop_acc_t(const Case& cs) {
   VF_CHECK(t.get_min_value() == F[0] && t.get_max_value() == F[n - 1], "extremes", "long stream: min/max " << t.get_min_value() << "/" << t.get_max_value());
   std::vector<double> qs = {0.0001, 0.001, 0.01, 0.05, 0.1, 0.25, 0.5, 0.75, 0.9, 0.95, 0.99, 0.999, 0.9999};
   for (int i = 0; i < 6; ++i) qs.push_back(r.unit());
+  const double dn0 = static_cast<double>(n);
+  for (double e : {1.5, 2.9, 7.3, 40.7}) { qs.push_back(e / dn0); qs.push_back(1 - e / dn0); }   // the last few items on either side
+  const AccC acc = acc_constants(order, dist);
   const double dn = static_cast<double>(n);
   const bool cal = !vf::env("C17_CALIB").empty();
   Deferred qfail;
@@ -649,7 +658,7 @@ template <typename T> void prop_acc_t(const Case& cs) {
     const double est = t.get_rank(v);
     const double err = std::fabs(est - truth);
     const double cf = cluster_fraction(truth, k, dn);
-    const double bound = cal ? 2.0 : ACC_C_RANK * cf + ACC_ITEMS / dn;   // C17_CALIB (development aid): report ratios, never fail
+    const double bound = cal ? 2.0 : acc.rank * (cf + 1 / dn);   // C17_CALIB (development aid): report ratios, never fail
     if (cal) {
       double ratio = err / (cf + 1 / dn);
       if (ratio > calib().max_rank[order * 4 + dist]) { calib().max_rank[order * 4 + dist] = ratio; fprintf(stderr, "CALIB rank ratio %.4f err %.3g q %.4f k %u n %" PRIu64 " order %d dist %d parts %" PRIu64 " tree %d qevery %" PRIu64 " %s\n", ratio, err, truth, k, n, order, dist, parts, tree, qevery, Lim<T>::name()); }
@@ -661,7 +670,7 @@ template <typename T> void prop_acc_t(const Case& cs) {
     const double b = static_cast<double>(std::upper_bound(F.begin(), F.end(), x) - F.begin()) / dn;
     const double qerr = q < a ? a - q : q > b ? q - b : 0.0;
     const double qcf = cluster_fraction(q, k, dn);
-    const double qbound = cal ? 2.0 : ACC_C_QUANT * qcf + ACC_ITEMS / dn;
+    const double qbound = cal ? 2.0 : acc.quant * (qcf + 1 / dn);
     if (cal) {
       double ratio = qerr / (qcf + 1 / dn);
       if (ratio > calib().max_quant[order * 4 + dist]) { calib().max_quant[order * 4 + dist] = ratio; fprintf(stderr, "CALIB quant ratio %.4f err %.3g q %.4f k %u n %" PRIu64 " order %d dist %d parts %" PRIu64 " tree %d qevery %" PRIu64 " %s\n", ratio, qerr, q, k, n, order, dist, parts, tree, qevery, Lim<T>::name()); }
